@@ -29,6 +29,10 @@ Byte-for-byte equality for all inputs and "no longer than the region traversed" 
 Round 5: the Em marker stores an empty chunk at the cursor; only Int / Data own a struct code,
 never a pad code; every function Ref._compile can install in a role is judged in that role;
 C11's index rule (bisect slot) is included.
+
+Round 6: constructor-derived attributes of Int that go stale when another class resizes the
+object (R9-ctor-derived-state); the selector's own packet stored; pack cutting / padding the
+value to a recomputed size.
 """
 import ast
 
